@@ -1,14 +1,329 @@
 /-
   C07 — Bits: construction and conversions are faithful under every bit order.
   ONLY property theorems (and their non-vacuity examples) live here; helper lemmas are in Proofs/Lemmas.
+  Denotation of a vector: `b.size` and the bits `b.ival.testBit i` (bit 0 = first element of the sequence);
+  `WF b : b.ival < 2 ^ b.size` = "all higher bits cleared".  Byte strings are lists of naturals with the explicit
+  hypothesis `AllBytes s` (every element < 256).
 -/
 import Model.Bits
 import Model.Gen.BitsG
+import Proofs.Lemmas.BitsBasic
+import Proofs.Lemmas.BitsOps
+import Proofs.Lemmas.BitsIndex
+import Proofs.Lemmas.BitsExt
+import Proofs.Lemmas.Bytes
+import Proofs.Lemmas.BitsConv
 namespace Proofs.C07
-open Model Model.Bits
+open Model Model.Bits Model.Py Proofs.Lemmas.Bits Proofs.Lemmas.Bytes
+
+/-! ## 1. `reverse_byte` -/
 
 /-- the multiplication trick of `reverse_byte` is exactly the table probed from the current source (all 256 bytes) -/
 theorem reverseByte_eq_probed : ∀ b < 256, reverseByte b = Model.Gen.BitsG.reverseByteTable.getD b 0 := by
   decide +kernel
+
+/-- ... and it is the bit reversal of the byte, for all 256 bytes (kernel enumeration of the complete domain) -/
+theorem reverseByte_spec (b : Nat) (hb : b < 256) :
+    reverseByte b < 256 ∧ ∀ j, j < 8 → (reverseByte b).testBit j = b.testBit (7 - j) :=
+  ⟨reverseByte_lt b hb, fun j hj => reverseByte_testBit b hb j hj⟩
+
+theorem reverseByte_involutive (b : Nat) (hb : b < 256) : reverseByte (reverseByte b) = b := by
+  have h1 := reverseByte_lt b hb
+  apply Nat.eq_of_testBit_eq
+  intro j
+  by_cases hj : j < 8
+  · rw [reverseByte_testBit _ h1 j hj, reverseByte_testBit b hb (7 - j) (by omega)]
+    congr 1; omega
+  · rw [testBit_of_lt (n := 8) (by simpa using reverseByte_lt _ h1) (by omega),
+      testBit_of_lt (n := 8) (by simpa using hb) (by omega)]
+
+/-! ## 2. Constructors: exactly the requested size, all higher bits cleared -/
+
+/-- `Bits(v)` for an int: the magnitude, in the least width that holds it (`bit_length`) -/
+theorem ofInt_spec (v : Int) :
+    (ofInt v none).ival = v.natAbs ∧ (ofInt v none).WF ∧
+    (∀ n, v.natAbs < 2 ^ n → (ofInt v none).size ≤ n) :=
+  ⟨rfl, ofNat_wf _, fun _ h => bitLength_le_of_lt h⟩
+
+/-- `Bits(v,n)`: size n, value `|v| mod 2^n`, i.e. the low n bits of `|v|` and nothing above -/
+theorem ofInt_size_spec (v : Int) (n : Nat) :
+    (ofInt v (some n)).size = n ∧ (ofInt v (some n)).ival = v.natAbs % 2 ^ n ∧ (ofInt v (some n)).WF ∧
+    ∀ i, (ofInt v (some n)).ival.testBit i = (decide (i < n) && v.natAbs.testBit i) :=
+  ⟨rfl, rfl, ofNatSz_wf _ _, fun i => by simp [ofInt, Nat.testBit_mod_two_pow]⟩
+
+/-- `Bits(list)`: size = len, bit j = `list[j] & 1` -/
+theorem ofList_spec (l : List Nat) :
+    (ofList l).size = l.length ∧ (ofList l).WF ∧
+    ∀ j, (ofList l).ival.testBit j = decide (l.getD j 0 % 2 = 1) :=
+  ⟨rfl, listVal_lt l, fun j => listVal_testBit l j⟩
+
+/-- `Bits(list,n)`: truncated / zero-extended to n -/
+theorem ofList_size_spec (l : List Nat) (n : Nat) :
+    (ofList l (some n)).size = n ∧ (ofList l (some n)).WF ∧
+    ∀ j, (ofList l (some n)).ival.testBit j = (decide (j < n) && decide (l.getD j 0 % 2 = 1)) :=
+  ⟨rfl, setSize_wf _ _, fun j => by simp [ofList, Nat.testBit_mod_two_pow, listVal_testBit]⟩
+
+/-- `Bits(b,n)` / the `size` setter: the low n bits are kept, everything above is cleared -/
+theorem setSize_spec (b : Bits) (n : Nat) :
+    (b.setSize n).size = n ∧ (b.setSize n).WF ∧
+    ∀ i, (b.setSize n).ival.testBit i = (decide (i < n) && b.ival.testBit i) :=
+  ⟨rfl, setSize_wf _ _, fun i => by simp [Nat.testBit_mod_two_pow]⟩
+
+/-! ## 3. `load`: the documented bit sequence for every bit-order convention -/
+
+/-- bit-stream order (`bitorder=-1`, the default): bit 8i+j is bit 7-j of byte i (first byte's MSB is bit 0) -/
+theorem load_bitstream (s : List Nat) (hs : AllBytes s) :
+    ∃ r, load s (-1) = .ok r ∧ r.size = 8 * s.length ∧ r.WF ∧
+      ∀ i (hi : i < s.length) j, j < 8 → r.ival.testBit (8 * i + j) = s[i].testBit (7 - j) := by
+  have hk : loadK s (-1) = 1 := by simp [loadK]
+  obtain ⟨r, h1, h2, h3, h4⟩ := load_spec s hs (-1) (by rw [hk]; exact Nat.one_dvd _)
+  refine ⟨r, h1, h2, h3, ?_⟩
+  intro i hi j hj
+  have := h4 i 0 j (by rw [hk]; omega) hj (by rw [hk]; omega)
+  simp only [hk, Nat.one_mul, Nat.add_zero, Nat.sub_self] at this
+  rw [this]
+  have hneg : ((-1 : Int) < 0) := by omega
+  simp only [hneg, ↓reduceIte]
+  rw [← List.getElem_eq_getD (h := hi)]
+  exact reverseByte_testBit _ (hs _ (List.getElem_mem hi)) j hj
+
+/-- little-endian integer (`bitorder=+1`) -/
+theorem load_le (s : List Nat) (hs : AllBytes s) : load s 1 = .ok ⟨leInt s, 8 * s.length⟩ := load_le_eq s hs
+
+/-- big-endian integer (`bitorder=0`, also for the empty string after the fix) -/
+theorem load_be (s : List Nat) (hs : AllBytes s) : load s 0 = .ok ⟨beInt s, 8 * s.length⟩ := load_be_eq s hs
+
+/-- mixed-endian groups (`bitorder=k>0`, k ∣ |s|): groups of k bytes, each a big-endian integer, the groups in
+    little-endian order — byte `t` of group `g` is byte number `k·g + (k-1-t)` of the integer -/
+theorem load_grouped (s : List Nat) (hs : AllBytes s) (k : Nat) (hk : 0 < k) (hd : k ∣ s.length) :
+    ∃ r, load s (k : Int) = .ok r ∧ r.size = 8 * s.length ∧ r.WF ∧
+      ∀ g t j (_ : t < k) (_ : j < 8) (hlt : k * g + t < s.length),
+        r.ival.testBit (8 * (k * g + (k - 1 - t)) + j) = s[k * g + t].testBit j := by
+  have hK : loadK s (k : Int) = k := by
+    unfold loadK
+    have : ¬ ((k : Int) = 0) := by omega
+    rw [if_neg this]; exact Int.natAbs_natCast k
+  obtain ⟨r, h1, h2, h3, h4⟩ := load_spec s hs (k : Int) (by rw [hK]; exact hd)
+  refine ⟨r, h1, h2, h3, ?_⟩
+  intro g t j ht hj hlt
+  have hb := dvd_bound hd hlt
+  have e0 : k * (g + 1) = k * g + k := Nat.mul_succ k g
+  have := h4 g (k - 1 - t) j (by rw [hK]; omega) hj (by rw [hK]; omega)
+  simp only [hK] at this
+  rw [this]
+  have hneg : ¬ ((k : Int) < 0) := by omega
+  simp only [hneg, ↓reduceIte, id]
+  have e : k * g + (k - 1 - (k - 1 - t)) = k * g + t := by omega
+  rw [e, ← List.getElem_eq_getD (h := hlt)]
+
+/-- the two-byte groups of the documentation (PDP-endian): the general law at k = 2 as a value -/
+theorem load_grouped_pair (a b c d : Nat) (h : AllBytes [a, b, c, d]) :
+    load [a, b, c, d] 2 = .ok ⟨(a * 256 + b) + 65536 * (c * 256 + d), 32⟩ := by
+  have ha := h a (by simp); have hb := h b (by simp); have hc := h c (by simp); have hd := h d (by simp)
+  have hload : load [a, b, c, d] 2 = .ok ⟨groupsVal id 2 [[a, b], [c, d]], 32⟩ := by
+    simp [load, chunks, chunks.go]
+  rw [hload]
+  congr 2
+  simp only [groupsVal, groupVal, List.foldl_cons, List.foldl_nil, id]
+  have hb' : b < 2 ^ 8 := by simpa using hb
+  have hd' : d < 2 ^ 8 := by simpa using hd
+  have hab : a * 256 + b < 2 ^ 16 := by omega
+  simp only [Nat.zero_shiftLeft, Nat.zero_or]
+  have e1 : c <<< 8 ||| d = c * 256 + d := by
+    rw [← Nat.shiftLeft_add_eq_or_of_lt hd', Nat.shiftLeft_eq]
+  have e2 : a <<< 8 ||| b = a * 256 + b := by
+    rw [← Nat.shiftLeft_add_eq_or_of_lt hb', Nat.shiftLeft_eq]
+  have hab' : a * 256 + b < 2 ^ (8 * 2) := by omega
+  rw [e1, e2, ← Nat.shiftLeft_add_eq_or_of_lt hab', Nat.shiftLeft_eq]
+  omega
+
+/-- `load` is refused exactly when the (non-zero) bitorder's magnitude does not divide the length -/
+theorem load_error_iff (s : List Nat) (bo : Int) :
+    (∃ e, load s bo = .error e) ↔ (bo ≠ 0 ∧ ¬ (bo.natAbs ∣ s.length)) := by
+  rw [load_error_iff']
+  unfold loadK
+  by_cases h0 : bo = 0
+  · simp only [h0, ↓reduceIte, ne_eq, not_true_eq_false, false_and, iff_false, Decidable.not_not]
+    split
+    · exact Nat.one_dvd _
+    · exact Nat.dvd_refl _
+  · simp [h0]
+
+/-- `Bits(bytes,size,bitorder)`: the loaded sequence cut / zero-extended to `size` -/
+theorem ofBytes_spec (s : List Nat) (n : Nat) (bo : Int) (r : Bits) (h : load s bo = .ok r) :
+    ofBytes s (some n) bo = .ok (r.setSize n) ∧ ofBytes s none bo = .ok r := by
+  unfold ofBytes; rw [h]; exact ⟨rfl, rfl⟩
+
+/-! ## 4. Conversions out -/
+
+/-- `bit(i)` with Python's negative indices -/
+theorem bit_spec (b : Bits) (i : Int) :
+    b.bit i = match normIndex i b.size with
+      | some p => .ok (b.ival.testBit p).toNat
+      | none => .error "IndexError" := bit_eq b i
+
+/-- `int(b)`: the unsigned value -/
+theorem toInt_unsigned (b : Bits) (hb : b.WF) : b.toInt 1 = .ok (b.ival : Int) := by
+  unfold toInt
+  have : ¬ ((1 : Int) = -1) := by omega
+  simp only [this, ↓reduceIte, and_mask, mod_of_wf hb]; rfl
+
+/-- `b.int(-1)`: two's complement, `x - 2^n·[bit n-1 set]` (n > 0) -/
+theorem toInt_signed (b : Bits) (hb : b.WF) (hn : 0 < b.size) :
+    b.toInt (-1) = .ok ((b.ival : Int) - (if b.ival.testBit (b.size - 1) then ((2 ^ b.size : Nat) : Int) else 0)) := by
+  unfold toInt
+  simp only [↓reduceIte]
+  rw [bit_neg_one b hn]
+  show (if (b.ival.testBit (b.size - 1)).toNat = 1 then (pure (-((b.ival ^^^ b.mask : Nat) : Int) - 1) : Except Err Int)
+        else pure ((b.ival &&& b.mask : Nat) : Int)) = _
+  cases hs : b.ival.testBit (b.size - 1)
+  · simp only [Bool.toNat_false, Nat.zero_ne_one, ↓reduceIte, and_mask, mod_of_wf hb, Bool.false_eq_true, Int.sub_zero]; rfl
+  · simp only [Bool.toNat_true, ↓reduceIte, xor_mask b hb]
+    show Except.ok _ = Except.ok _
+    congr 1
+    have h1 : b.ival < 2 ^ b.size := hb
+    have h2 : ((2 ^ b.size - 1 - b.ival : Nat) : Int) = ((2 ^ b.size : Nat) : Int) - 1 - (b.ival : Int) := by omega
+    rw [h2]; omega
+
+/-- an empty vector has no sign bit: `int(-1)` is refused -/
+theorem toInt_signed_empty (b : Bits) (h0 : b.size = 0) : ∃ e, b.toInt (-1) = .error e := by
+  unfold toInt
+  simp only [↓reduceIte]
+  rw [bit_neg_one_empty b h0]
+  exact ⟨"IndexError", rfl⟩
+
+/-- `list(b)` / `bitlist()`: the bits in order; `bitlist(-1)` reversed -/
+theorem toBitList_spec (b : Bits) :
+    b.toBitList.length = b.size ∧ ∀ i (h : i < b.toBitList.length), b.toBitList[i] = (b.ival.testBit i).toNat :=
+  ⟨toBitList_length b, fun i h => toBitList_getElem b i h⟩
+
+theorem bitlist_spec (b : Bits) : b.bitlist 1 = b.toBitList ∧ b.bitlist (-1) = b.toBitList.reverse := by
+  unfold bitlist
+  have : ¬ ((1 : Int) = -1) := by omega
+  simp [this]
+
+/-- `str(b)`: character i is `'1'` iff bit i is set; length = size -/
+theorem toStr_spec (b : Bits) :
+    b.toStr.toList.length = b.size ∧
+    ∀ i (h : i < b.toStr.toList.length), b.toStr.toList[i] = if b.ival.testBit i then '1' else '0' := by
+  unfold toStr
+  simp only [String.toList_ofList, List.length_map, toBitList_length, List.getElem_map, true_and]
+  intro i h
+  rw [toBitList_getElem]
+  cases b.ival.testBit i <;> simp
+
+/-- `todots()`: the same between bars with `.` / blank -/
+theorem todots_spec (b : Bits) :
+    b.todots = "|" ++ String.ofList ((List.range b.size).map fun i => if b.ival.testBit i then '.' else ' ') ++ "|" := by
+  unfold todots toBitList
+  congr 3
+  rw [List.map_map]
+  apply List.map_congr_left
+  intro i _
+  simp only [Function.comp, shr_and_one]
+  cases b.ival.testBit i <;> simp
+
+/-- `bytes(b)`: ⌈n/8⌉ bytes; byte k holds bits 8k..8k+7 first-bit-most-significant; zero fill beyond the size -/
+theorem toBytes_spec (b : Bits) :
+    b.toBytes.length = (b.size + 7) / 8 ∧ AllBytes b.toBytes ∧
+    ∀ k (h : k < b.toBytes.length) j, j < 8 →
+      b.toBytes[k].testBit (7 - j) = (decide (8 * k + j < b.size) && b.ival.testBit (8 * k + j)) :=
+  ⟨toBytes_length b, toBytes_allBytes b, fun k h j hj => toBytes_testBit b k h j hj⟩
+
+/-- `pack(b)` / `pack(b,'>L')`: the little- / big-endian bytes of the value over ⌈n/8⌉ bytes -/
+theorem pack_le (b : Bits) (hb : b.WF) : b.pack false = leBytes ((b.size + 7) / 8) b.ival := pack_le_eq b hb
+theorem pack_be (b : Bits) (hb : b.WF) : b.pack true = beBytes ((b.size + 7) / 8) b.ival := pack_be_eq b hb
+theorem pack_le_byte (b : Bits) (hb : b.WF) (j : Nat) (h : j < (b.pack false).length) :
+    (b.pack false)[j] = b.ival / 256 ^ j % 256 := by
+  simp only [pack_le_eq b hb, leBytes_getElem]
+
+/-! ## 5. Round trips: converting out and back in returns an equal vector -/
+
+/-- `Bits(b.bytes(), size=n) == b` -/
+theorem load_toBytes (b : Bits) (hb : b.WF) : ofBytes b.toBytes (some b.size) (-1) = .ok b := by
+  obtain ⟨r, h1, h2, h3, h4⟩ := load_bitstream b.toBytes (toBytes_allBytes b)
+  rw [(ofBytes_spec _ b.size (-1) r h1).1]
+  congr 1
+  apply ext_of_wf (setSize_wf _ _) hb rfl
+  intro i hi0
+  have hi : i < b.size := hi0
+  simp only [setSize_ival, Nat.testBit_mod_two_pow, hi, decide_true, Bool.true_and]
+  have hk : i / 8 < b.toBytes.length := by rw [toBytes_length]; omega
+  have hj : i % 8 < 8 := Nat.mod_lt _ (by omega)
+  have e : 8 * (i / 8) + i % 8 = i := by omega
+  have := h4 (i / 8) hk (i % 8) hj
+  rw [e] at this
+  rw [this, toBytes_testBit b _ hk _ hj, e]
+  simp [hi]
+
+/-- `Bits(b.bitlist()) == b` -/
+theorem ofList_bitlist (b : Bits) (hb : b.WF) : ofList (b.bitlist 1) = b := by
+  rw [(bitlist_spec b).1]
+  have hw : (ofList b.toBitList).WF := listVal_lt _
+  apply ext_of_wf hw hb (toBitList_length b)
+  intro i hi
+  have hi' : i < b.size := by
+    have : (ofList b.toBitList).size = b.size := toBitList_length b
+    omega
+  have hl : i < b.toBitList.length := by rw [toBitList_length]; exact hi'
+  show (listVal b.toBitList).testBit i = _
+  rw [listVal_testBit, ← List.getElem_eq_getD (h := hl), toBitList_getElem]
+  cases b.ival.testBit i <;> simp
+
+/-- `Bits([int(c) for c in str(b)]) == b` -/
+theorem ofStr_toStr (b : Bits) (hb : b.WF) :
+    ofList (b.toStr.toList.map fun c => if c = '1' then 1 else 0) = b := by
+  have : (b.toStr.toList.map fun c => if c = '1' then 1 else 0) = b.toBitList := by
+    unfold toStr
+    rw [String.toList_ofList, List.map_map]
+    apply List.ext_getElem (by simp)
+    intro i h1 h2
+    simp only [List.getElem_map, Function.comp]
+    rw [toBitList_getElem]
+    cases b.ival.testBit i <;> simp
+  rw [this]
+  have := ofList_bitlist b hb
+  rwa [(bitlist_spec b).1] at this
+
+/-- `unpack(s)` reads ANY byte string as one little-endian integer of 8|s| bits: every byte count, i.e. every greedy
+    Q/L/H/B decomposition -/
+theorem unpack_le (s : List Nat) (hs : AllBytes s) : unpack s false = (leInt s, 8 * s.length) :=
+  Proofs.Lemmas.Bits.unpack_le s hs
+/-- ... and, with `bigend=True`, as one big-endian integer (this is what the `fix:` of the shift repaired) -/
+theorem unpack_be (s : List Nat) (hs : AllBytes s) : unpack s true = (beInt s, 8 * s.length) :=
+  Proofs.Lemmas.Bits.unpack_be s hs
+
+/-- `Bits(*unpack(pack(b,fmt), bigend=(fmt=='>L'))) == b` for n a multiple of 8 — every byte count, both formats -/
+theorem unpack_pack (b : Bits) (hb : b.WF) (h8 : 8 ∣ b.size) (bigend : Bool) :
+    unpack (b.pack bigend) bigend = (b.ival, b.size) := by
+  obtain ⟨c, hc⟩ := h8
+  have hlen : (b.size + 7) / 8 = c := by omega
+  have hv : b.ival % 256 ^ c = b.ival := by
+    apply Nat.mod_eq_of_lt
+    have : (256 : Nat) = 2 ^ 8 := by decide
+    rw [this, ← Nat.pow_mul, ← hc]; exact hb
+  cases bigend
+  · rw [pack_le_eq b hb, unpack_le _ (leBytes_allBytes _ _), leInt_leBytes, leBytes_length, hlen, hv, hc]
+  · rw [pack_be_eq b hb]
+    unfold beBytes
+    rw [unpack_be _ (leBytes_allBytes _ _).reverse, beInt_eq, List.reverse_reverse, leInt_leBytes,
+      List.length_reverse, leBytes_length, hlen, hv, hc]
+
+/-! ## Non-vacuity -/
+
+-- the documentation's own examples
+example : ofBytes [0x80] (some 5) (-1) = .ok ⟨1, 5⟩ := rfl
+example : ofBytes [0x01, 0x0f] (some 13) 1 = .ok ⟨0x0f01, 13⟩ := rfl
+example : ofBytes [0x01, 0x0f] (some 13) 2 = .ok ⟨0x010f, 13⟩ := rfl
+example : AllBytes [0x0c, 0x0d, 0x0a, 0x0b] ∧ (2 : Nat) ∣ [0x0c, 0x0d, 0x0a, 0x0b].length ∧
+    load [0x0c, 0x0d, 0x0a, 0x0b] 2 = .ok ⟨0x0a0b0c0d, 32⟩ :=
+  ⟨by intro x hx; simp at hx; omega, by decide, rfl⟩
+example : ∃ e, load [1, 2, 3] 2 = .error e := ⟨_, rfl⟩
+-- a 3-byte vector (a byte count the old big-endian unpack got wrong), WF, size a multiple of 8
+example : (⟨0x800001, 24⟩ : Bits).WF ∧ (8 : Nat) ∣ (⟨0x800001, 24⟩ : Bits).size ∧
+    (⟨0x800001, 24⟩ : Bits).pack true = [0x80, 0x00, 0x01] ∧ unpack [0x80, 0x00, 0x01] true = (0x800001, 24) :=
+  ⟨by decide, by decide, rfl, rfl⟩
+-- a negative two's-complement value; a size that is not a multiple of 8
+example : (⟨5, 3⟩ : Bits).toInt (-1) = .ok (-3) ∧ (⟨0b10011, 5⟩ : Bits).toBytes = [0xc8] := ⟨rfl, rfl⟩
 
 end Proofs.C07
